@@ -285,6 +285,13 @@ def run(ctx):
                         if rng.random() < 0.5 else nr.integers(0, 5, size=shape).astype(dt)
                     if rng.random() < 0.2:
                         a.reshape(-1)[0] = top
+                    if rng.random() < 0.2:
+                        # voxel bytes that START like another format (gzip, zlib, JPEG, PNG magic numbers): a raw chunk is
+                        # whatever its voxels are - nothing may sniff its content
+                        magic = rng.choice([b"\x1f\x8b\x08\x00", b"\x78\x9c", b"\xff\xd8\xff\xe0", b"\x89PNG", b"\x1f\x8b"])
+                        flat = np.ascontiguousarray(a).view(np.uint8).reshape(-1)
+                        flat[:min(len(magic), flat.size)] = np.frombuffer(magic, dtype=np.uint8)[:flat.size]
+                        a = flat.view(a.dtype).reshape(a.shape)
                 # presentation of the array: byte order, contiguity, narrower safe type
                 how = rng.choice(["plain", "big-endian", "strided", "fortran", "narrow", "unsafe"])
                 if how == "unsafe" and enc != "jpeg" and dt != "float32":
